@@ -90,7 +90,9 @@ TEXT = {
               "deterministic simulation: per-invocation priority oracle on states reached by real runs"),
     "C14": _t("Modest: on tiny instances reached inside real runs (<=4 offered tasks, <=2 workers) each unplaced "
               "offered task of a TetriSched plan is tested against every (slot, worker, strategy) of the planner's own "
-              "published decision space (maximality). The ILP goodput half is not implemented yet.",
+              "published decision space (maximality); for the ILP goodput goal an independent transcription of the ILP's "
+              "decision space is searched exhaustively (orders x worker/strategy assignments) for a plan rewarding one "
+              "more task graph than the returned one.",
               "deterministic simulation: exhaustive tiny reference planner at each invocation of a real run"),
     "C15": _t("Seeded exploration of Clockwork runs (1-3 models with several batch-size strategies, pre-loaded or "
               "loaded by the policy, fixed/poisson/gamma/closed-loop request arrival, SLOs around the boundary, both "
